@@ -293,23 +293,21 @@ def r3(run, ctx):
         return
     n, c = popen[0]
     a0 = c.args[0] if c.args else astq.kwarg(c, 'args')
-    run.check('R3', isinstance(a0, ast.Name), 'Popen runs a computed argument vector', sp, n.ast)
-    argname = a0.id if isinstance(a0, ast.Name) else None
-    # args = self.format_args(sockets_fds=X);  X = self._get_sockets_fds()
-    fa = [s for s in ctx.sites_calling(sp, [P + 'format_args'])]
-    ok = False
-    for s in fa:
-        if isinstance(s.node.ast, ast.Assign) and any(isinstance(t, ast.Name) and t.id == argname
-                                                      for t in s.node.ast.targets):
-            v = astq.kwarg(s.call, 'sockets_fds', 0)
-            if isinstance(v, ast.Name):
-                for a in walk_local(sp.node):
-                    if isinstance(a, ast.Assign) and any(isinstance(t, ast.Name) and t.id == v.id
-                                                         for t in a.targets):
-                        ok = isinstance(a.value, ast.Call) and \
-                            norm_text(a.value.func) == 'self._get_sockets_fds'
-            elif isinstance(v, ast.Call):
-                ok = norm_text(v.func) == 'self._get_sockets_fds'
+    # Popen(<argv>): every definition of the argument vector reaching the call is
+    # format_args(sockets_fds=<self._get_sockets_fds()>), through whatever locals
+    from sa.dataflow import reaching_defs
+    rds = reaching_defs(ctx, sp)
+    alts = rds.expand(n, a0) if a0 is not None else []
+    run.check('R3', bool(alts) and all(isinstance(a.expr, ast.Call) for a in alts),
+              'Popen runs a computed argument vector', sp, n.ast)
+    ok = bool(alts)
+    for a in alts:
+        e = a.expr
+        if not (isinstance(e, ast.Call) and norm_text(e.func) == 'self.format_args'):
+            ok = False
+            continue
+        v = astq.kwarg(e, 'sockets_fds', 0)
+        ok = ok and isinstance(v, ast.Call) and norm_text(v.func) == 'self._get_sockets_fds'
     run.check('R3', ok, 'argv = format_args(sockets_fds=self._get_sockets_fds())', sp, n.ast,
               'the argument vector is not built from the socket descriptor table')
     g = ctx.fn(P + '_get_sockets_fds')
